@@ -19,7 +19,7 @@ def run(ck):
     cs = vf.read_ndjson(cases)
     x = [c for c in cs if c["kind"] == "instance" and c["tid"] == 11][0]
     ck.sample({"instance": {"type": 11, "layers": x["layers"], "stream_head": x["stream"][:24]}})
-    bins = io.build_io(ck, ["asan"] if ck.quick else ["asan", "rel"])
+    bins = io.build_io(ck, ["asan", "rel"])
     io.roundtrip(ck, bins, cases, only="io/")
     for fl, b in bins.items():
         tr = ck.path("random-%s.ndjson" % fl)
